@@ -437,7 +437,7 @@ def generate(rng, tier, scale=1):
             if kind in ALPHA_KINDS:
                 grid = _alpha_grid(kind)
                 for a in grid[1:]:
-                    for size in ([1, 2, 3, 4, 5, 8, 12, 16, 31, 32] if scale == 1 else []):
+                    for size in ([1, 2, 3, 4, 5, 8, 12, 14, 16, 27, 31, 32] if scale == 1 else []):
                         cases.append(_mk(dict_, kind, size, a, kw=(size % 2 == 0)))
                 for _ in range(nalpha):
                     a = rng.choice(grid[1:] + [rng.randint(-25, 25) / 100.0 if kind == "blackman"
@@ -671,6 +671,10 @@ def impl(c):
             else:
                 args += (a,)
         out = f(*args, **kw)
+        if isinstance(out, list):
+            cx = [i for i, x in enumerate(out) if type(x) is complex]
+            if cx:                    # Python 3: negative ** non-integer is a complex number
+                return {"err": "ComplexSample", "index": cx[0], "value": repr(out[cx[0]]), "len": len(out)}
         if not isinstance(out, list) or not all(type(x) is float for x in out):
             return {"err": "OTHER:not-a-list-of-floats", "repr": repr(out)[:200]}
         obs = {"out": [enc(x) for x in out]}
@@ -727,7 +731,8 @@ def _problems(c, io, drv):
         if spec is None or not isinstance(io.get("doc"), list):
             return out
         dv, sv = [dec(x) for x in io["doc"]], [dec(x) for x in spec["ok"]]
-        bad = [i for i, (a, b) in enumerate(zip(dv, sv)) if not common.close(a, b, Fraction(1, 10 ** 9))]
+        bad = [i for i, (a, b) in enumerate(zip(dv, sv)) if not (isinstance(b, float) and b != b)
+               and not common.close(a, b, Fraction(1, 10 ** 9))]
         if len(dv) != len(sv) or bad:
             i = bad[0] if bad else 0
             out.append(("spec", "doc-math", "documented formula `%s` gives %r at n=%d of %s.%s(%d), the strategy returns %r" % (
@@ -735,7 +740,11 @@ def _problems(c, io, drv):
         return out
     # ---- impl <-> model (Float twin of the generated definitions) ------------------------------
     if "err" in io:
-        if model.get("err") != io["err"]:
+        # model "NaN" = IEEE invalid operation in the Float twin: Python raises ZeroDivisionError (0.0/0.0)
+        # or yields a complex number (negative ** non-integer) there
+        same = model.get("err") == io["err"] or (model.get("err") == "NaN" and
+                                                   io["err"] in ("ZeroDivisionError", "ComplexSample"))
+        if not same:
             out.append(("model", "error", "impl raised %s, model %s" % (io["err"], _brief(model))))
     else:
         vals = [dec(x) for x in io["out"]]
@@ -757,6 +766,11 @@ def _problems(c, io, drv):
         return out
     if _alias_gap(c) and io.get("err") == "KeyError":
         return out                                   # observation O1 (see ASSUMPTIONS), counted in tally
+    if io.get("err") == "ComplexSample":
+        out.append(("spec", "complex-sample", "%s.%s(%d%s)[%d] = %s is not a real number in [0,1]" % (
+            c["dict"], c["name"], c["size"], "" if _alpha_of(c) is None else ", %r" % _alpha_of(c),
+            io["index"], io["value"])))
+        return out
     if "err" in io:
         out.append(("spec", "raises-" + io["err"], "impl raised %s where the property specifies a window" % io["err"]))
         return out
@@ -768,7 +782,10 @@ def _problems(c, io, drv):
     if c["dict"] == "wsymm" and size == 1 and vals != [1]:
         out.append(("spec", "size1", "wsymm.%s(1) = %r, not [1.0]" % (c["name"], [float(v) for v in vals])))
     if len(vals) == len(sv):
-        bad = [i for i, (a, b) in enumerate(zip(vals, sv)) if not common.close(a, b, TOL)]
+        ct = _sym_tol(kind, alpha)      # conditioning-aware only for cos with 0 < alpha < 1, else TOL
+        # a NaN sample of the spec's Float evaluation (sin(~pi) slightly negative, non-integer alpha) is skipped
+        bad = [i for i, (a, b) in enumerate(zip(vals, sv)) if not (isinstance(b, float) and b != b)
+               and not common.close(a, b, ct)]
         if bad:
             i = bad[0]
             out.append(("spec", "closed-form", "sample %d of %s.%s(%d): impl %r, closed form %r (%d samples differ)" % (
